@@ -664,6 +664,9 @@ static size_t copy_chars (UCHAR* from, UCHAR* to, size_t count, interactive_t* i
                * passing the buffer as a paramater.
                */
               ip->sb_buf[ip->sb_pos] = 0;	/* may need setup as a buffer */
+              /* back to data mode before any LPC callback runs: an error raised by the callback
+               * must not leave the connection inside the sub-negotiation for ever */
+              ip->state = TS_DATA;
               switch (ip->sb_buf[0])
                 {
                 case TELOPT_TTYPE:
